@@ -374,3 +374,123 @@ func c16prehijack(c *Ctx, rule string) {
 	})
 	r.Check(rule, shortFn(retErr), "replies-and-fails", retErr.Pos(), ok2 && n2 > 0, why2)
 }
+
+// deadlineDiscipline: during the client handshake the connection's deadline is
+// set (a) by the dialing goroutine only - a watcher goroutine's SetDeadline can
+// land after the final clear - and (b) after it was armed by netDialWithDeadline
+// only with the zero time (the clear): a later, different deadline would
+// replace the handshake deadline instead of tightening it.
+func deadlineDiscipline(c *Ctx, rule string) {
+	d := newDialA(c)
+	roots := []*ssa.Function{d.dial, c.fn("(*httpProxyDialer).DialContext"), c.fn("(*Dialer).netDialFn"), c.fn("(*Dialer).netDialFromURL"), c.fn("netDialWithTLSHandshake"), c.fn("doHandshake")}
+	armFn := c.fn("netDialWithDeadline")
+	seen := map[*ssa.Function]bool{}
+	var fns []*ssa.Function
+	var visit func(f *ssa.Function)
+	visit = func(f *ssa.Function) {
+		if f == nil || seen[f] || !c.P.InPkg(f) {
+			return
+		}
+		seen[f] = true
+		fns = append(fns, f)
+		for _, a := range f.AnonFuncs {
+			visit(a)
+		}
+		for callee := range c.P.Mod(f).Callees {
+			if c.isNewHelper(callee, 1) {
+				visit(callee)
+			}
+		}
+	}
+	for _, f := range roots {
+		visit(f)
+	}
+	isSetDeadline := func(ci ssa.CallInstruction) bool {
+		cc := ci.Common()
+		if cc.IsInvoke() {
+			switch cc.Method.Name() {
+			case "SetDeadline", "SetReadDeadline", "SetWriteDeadline":
+				return true
+			}
+		}
+		return false
+	}
+	okG, whyG := true, "no goroutine started during the handshake touches the connection's deadline"
+	okZ, whyZ := true, "after the handshake deadline was armed, the deadline is only cleared (zero time)"
+	nSet := 0
+	var callsSet func(f *ssa.Function, depth int) bool
+	callsSet = func(f *ssa.Function, depth int) bool {
+		if f == nil || depth > 3 || f.Blocks == nil {
+			return false
+		}
+		for _, b := range f.Blocks {
+			for _, in := range b.Instrs {
+				if ci, ok := in.(ssa.CallInstruction); ok {
+					if isSetDeadline(ci) {
+						return true
+					}
+					if g := ci.Common().StaticCallee(); g != nil && c.P.InPkg(g) && callsSet(g, depth+1) {
+						return true
+					}
+				}
+			}
+		}
+		return false
+	}
+	for _, fn := range fns {
+		inArm := false
+		for p := fn; p != nil; p = p.Parent() {
+			if p == armFn {
+				inArm = true
+			}
+		}
+		for _, b := range fn.Blocks {
+			for _, in := range b.Instrs {
+				if g, isGo := in.(*ssa.Go); isGo {
+					var target *ssa.Function
+					switch v := g.Call.Value.(type) {
+					case *ssa.MakeClosure:
+						target, _ = v.Fn.(*ssa.Function)
+					case *ssa.Function:
+						target = v
+					}
+					if target != nil && callsSet(target, 0) {
+						okG, whyG = false, shortFn(fn)+" starts a goroutine at "+c.P.Pos(in.Pos())+" that sets a deadline on the connection: nothing orders it before the final SetDeadline(time.Time{}) of a successful dial, so the returned connection can carry a stale deadline"
+					}
+				}
+				ci, ok := in.(ssa.CallInstruction)
+				if !ok || !isSetDeadline(ci) || inArm {
+					continue
+				}
+				if _, isGo := in.(*ssa.Go); isGo {
+					continue
+				}
+				nSet++
+				arg := ci.Common().Args[0]
+				zero := false
+				switch a := arg.(type) {
+				case *ssa.Const:
+					zero = a.Value == nil
+				case *ssa.UnOp: // load of a zero-valued local (time.Time{} literal)
+					if al, isAl := a.X.(*ssa.Alloc); isAl {
+						stores := 0
+						for _, ref := range *al.Referrers() {
+							if _, isSt := ref.(*ssa.Store); isSt {
+								stores++
+							}
+							if _, isFA := ref.(*ssa.FieldAddr); isFA {
+								stores++
+							}
+						}
+						zero = stores == 0
+					}
+				}
+				if !zero {
+					okZ, whyZ = false, shortFn(fn)+" sets a non-zero deadline on the connection at "+c.P.Pos(in.Pos())+" during the handshake: it replaces the handshake deadline (HandshakeTimeout / context) for the operations that follow"
+				}
+			}
+		}
+	}
+	c.R.Check(rule, shortFn(d.dial), "deadline-set-by-the-dialing-goroutine-only", d.dial.Pos(), okG, whyG)
+	c.R.Check(rule, shortFn(d.dial), "only-the-handshake-deadline-then-the-clear", d.dial.Pos(), okZ && nSet > 0, whyZ)
+}
